@@ -1082,6 +1082,12 @@ for spec, runs in frames[:: max(1, len(frames) // 3)][:3]:
                         numtimetraces=len(spec["tx"]), positions_pixel0=positions(spec)[0].tolist()[:6],
                         fill=r["fill"], impl_pixel0=complex(r["impl"][0])))
 
+# ---- the glue model of the public functions (Model files added later, see manifest text) tied to the library on every run:
+#      inputs generated here, the library run on them, the model evaluated on the same inputs by vm_compute inside coqc
+import ties.tie_C02 as _tie_glue  # noqa: E402
+_tie_n = _tie_glue.run(chk, arim, rng, Q)
+chk.cov["glue_model_tie_comparisons"] = int(_tie_n or 0)
+
 chk.finish(
     evaluations=evaluations,
     distinct_nontrivial=len(nontrivial),
